@@ -144,9 +144,9 @@ def eval_pose(P, pose, level, seed, out, info):
             tau = np.array(s.staticForces(Wrench(F.copy())), float).reshape(6)
             out.append(("static_equilibrium", float(np.abs(pg.legs_wrench_on_top(B, Tt, P.bl, P.tl, tau) - F).max()) / nF, TOL_F, k))
             if k % 2 == 0:
-                sw = _vec(s.sumActuatorWrenches(tau.copy()))
+                sw = 2.0 * _vec(s.sumActuatorWrenches(0.5 * tau))    # argument form, forces differing from the remembered ones
             else:
-                sw = _vec(s.sumActuatorWrenches())       # uses the forces remembered by staticForces
+                sw = _vec(s.sumActuatorWrenches())                   # uses the forces remembered by staticForces
             out.append(("sum_actuator_wrenches", float(np.abs(sw + F).max()) / nF, TOL_F, k))
             if level == "full":
                 out.append(("static_inverse", float(np.abs(_vec(s.staticForcesInv(tau.reshape(6, 1).copy())) - F).max()) / nF, TOL_F, k))
